@@ -505,7 +505,19 @@ func (c *checker) reparse(x ast.Expr, s span) {
 				err = fmt.Errorf("the parser panics: %v", p)
 			}
 		}()
-		return parseInContext(x, text)
+		y, err = parseInContext(x, text)
+		if err != nil {
+			// an expression that stands where a type is expected is read by the type parser there (a
+			// parameter type `a[a(), 1]` of a damaged file is an instantiation to it and a syntax error
+			// to the expression parser): re-parse it where it came from, as the type of a declaration
+			if ty, err2 := parseAsType(text); err2 == nil {
+				return ty, nil
+			}
+			if ty, err2 := parseAsParam(text); err2 == nil {
+				return ty, nil
+			}
+		}
+		return y, err
 	}()
 	if err != nil {
 		c.badRe[x] = true
@@ -522,6 +534,40 @@ func (c *checker) reparse(x ast.Expr, s span) {
 		c.badRe[x] = true
 		c.report(x, vk.Bad("reparse-differs:"+kind, "%s: re-parsing its source slice gives a different tree at %s", c.where(x, s), d))
 	}
+}
+
+// parseAsType parses text in type position: as the type of `var _ <text>`.
+func parseAsType(text string) (ast.Expr, error) {
+	f, err := parser.ParseFile(gotoken.NewFileSet(), "t.xgo", "package p\n\nvar _ "+text+"\n", 0)
+	if err != nil {
+		return nil, err
+	}
+	for _, d := range f.Decls {
+		if gd, ok := d.(*ast.GenDecl); ok && len(gd.Specs) == 1 {
+			if vs, ok := gd.Specs[0].(*ast.ValueSpec); ok && vs.Type != nil && len(vs.Values) == 0 {
+				return vs.Type, nil
+			}
+		}
+	}
+	return nil, fmt.Errorf("not a type")
+}
+
+// parseAsParam parses text as the type of an unnamed parameter: `func _(<text>)`. The parameter
+// list parser decides late whether an entry is a name or a type and accepts more than the type
+// parser does.
+func parseAsParam(text string) (ast.Expr, error) {
+	f, err := parser.ParseFile(gotoken.NewFileSet(), "t.xgo", "package p\n\nfunc _("+text+")\n", 0)
+	if err != nil {
+		return nil, err
+	}
+	for _, d := range f.Decls {
+		if fd, ok := d.(*ast.FuncDecl); ok && fd.Type != nil && fd.Type.Params != nil && len(fd.Type.Params.List) == 1 {
+			if fl := fd.Type.Params.List[0]; len(fl.Names) == 0 && fl.Type != nil {
+				return fl.Type, nil
+			}
+		}
+	}
+	return nil, fmt.Errorf("not a parameter type")
 }
 
 var ellipsisNewline = regexp.MustCompile(`\.\.\.[ \t]*(//[^\n]*|/\*[^\n]*\*/[ \t]*)?\r?\n`)
